@@ -5,7 +5,7 @@ import numpy as np
 
 ID = "C10"
 PROPS_FILE = "theories/Props/C10.v"
-EXTRACT = ("theories/Extract/XC10.v", "c10", ["entry_emd", "entry_emdc", "entry_cert", "entry_partial", "entry_brute"])
+EXTRACT = ("theories/Extract/XC10.v", "c10", ["entry_emd", "entry_emdc", "entry_emdl", "entry_cert", "entry_partial", "entry_brute"])
 PYX = {"_fastemd.pyx": ["emd_hat_int32"]}
 RULE = ("one case = one instance (p, q, c, penalty|None) plus an encoding; the implementation is called through "
         "centrosome.fastemd for all variants: flow type NO_FLOW / WITHOUT_TRANSHIPMENT_FLOW / WITHOUT_EXTRA_MASS_FLOW x gd_metric "
@@ -413,13 +413,18 @@ def _run_models(ctx, cases):
     res = [[] for _ in cases]
     for k, r in zip(where, ctx.run_model("entry_emdc", args)):
         res[k].append(r)
+    ll = [[] for _ in cases]
+    for k, r in zip(where, ctx.run_model("entry_emdl", args)):
+        ll[k].append(r)
+    _run_models.ll = ll
     return res
 
 
 def model(ctx, cases, outs):
     """Per case: the certified model's (dist, F) for every variant.  entry_emdc only answers when its own full flow
     passed emd_cert_ok inside the model (theorem C10_model_emd_correct), so no separate check of the model's flow."""
-    return [{"r": m, "cert": True} for m in _run_models(ctx, cases)]
+    ms = _run_models(ctx, cases)
+    return [{"r": m, "cert": True, "ll": l} for m, l in zip(ms, _run_models.ll)]
 
 
 def _shape_ok(c, F):
@@ -438,8 +443,11 @@ def compare(case, out, mo):
             return "certified model gave no answer (out of fuel or its own certificate failed) on variant gd=%d flow=%d: %s" % (g, f, str(r)[:100])
         if r[0] != o[2]:
             return "distance differs on variant gd_metric=%d flow_type=%d: impl %d model %d" % (g, f, o[2], r[0])
-    if not mo["cert"]:
-        return "the MODEL's own full flow is rejected by emd_cert_ok (model defect)"
+    # line-level model of min_cost_flow.hpp: same tie-breaking as the code, so the FLOWS must be identical
+    for (g, f), o, r in zip(vs, out["v"], mo["ll"]):
+        exp = [o[2], o[3] if f else []]
+        if r != exp:
+            return "line-level model differs on variant gd_metric=%d flow_type=%d: impl %s model %s" % (g, f, str(exp)[:160], str(r)[:160])
     return None
 
 
